@@ -152,6 +152,7 @@ class Maker:
             self.inputs.append((name, 'real', v.t))
             if pos:
                 symx.ctx().assume(v.t > 0)
+                self.__dict__.setdefault('pos_terms', []).append(v.t)
             if lo is not None:
                 symx.ctx().assume(v.t >= symx.lift(lo))
             if hi is not None:
@@ -395,19 +396,19 @@ def _replay_path(prop, case, values, obname):
     return path
 
 
-def _robust_constraints(inputs):
-    cs = []
+def _robust_constraints(inputs, pos_terms=()):
+    cs = [t >= z3.RealVal('1/4') for t in pos_terms]
     for name, kind, info in inputs:
         if kind in ('real', 'int'):
             cs.append(z3.And(info <= 10000, info >= -10000))
     return cs
 
 
-def _try_candidates(res, h, inputs, hyps_base, neg, obname, key, timeout_ms, prop, ints=()):
+def _try_candidates(res, h, inputs, hyps_base, neg, obname, key, timeout_ms, prop, ints=(), pos_terms=()):
     """A sat answer was seen for hyps ∧ neg.  Look for a model that replays on the real
     library.  Records a violation / known finding / inconclusive entry."""
     attempts = []
-    rb = _robust_constraints(inputs)
+    rb = _robust_constraints(inputs, pos_terms)
     variants = [
         [solve.MARGIN == z3.RealVal('1/1000')] + rb,
         [solve.MARGIN == z3.RealVal('1/1000000')] + rb,
@@ -565,7 +566,7 @@ def run_case(prop, name, h, timeout_ms=30000, max_paths=400, allow_exceptions=()
                     'path_condition': [str(z3.simplify(c))[:200] for c in p.pc[:plen]][:12],
                     'goal': str(z3.simplify(term))[:400], 'verdict': r})
             if r == 'cex':
-                _try_candidates(res, h, m.inputs, hyps, z3.Not(term), obname, key, timeout_ms, prop, ints)
+                _try_candidates(res, h, m.inputs, hyps, z3.Not(term), obname, key, timeout_ms, prop, ints, getattr(m, 'pos_terms', ()))
             elif r == 'unknown':
                 res['inconclusive'].append(f'{obname}: solver unknown ({mdl})')
     if res['obligations'] and not res['vacuity']:
